@@ -42,7 +42,7 @@ def handle (line : String) : String :=
   match ws.mapM tokOf with
   | none => "UNMODELLED"
   | some ts =>
-    match nary realT (2 * ts.length + 4) 1 ts with
+    match nary realT (4 * ts.length + 3) 1 ts with   -- sufficient: theorem nary_fuel_bound
     | some (e, []) => (if ok realT e then "1 " else "0 ") ++ showE e
     | _ => "FAIL"
 
